@@ -2,7 +2,7 @@
 import json
 import os
 
-from .. import core, tables, fmt
+from .. import core, tables, fmt, panics
 from ..core import describe_r as describe, desc_contains, resolve_upvars
 
 ORACLES = os.path.join(os.path.dirname(os.path.dirname(os.path.dirname(os.path.abspath(__file__)))), "oracles")
@@ -339,7 +339,10 @@ def directory_protocol(chk, prog, cfg):
             if parts and len(parts) == 2 and parts[0][0] == "arg" and parts[1] == ("lit", "/"):
                 ad = describe(prog, b, parts[0][1])
                 uri_idx = next(i for i, x in enumerate(prog.structs["humphrey::http::request::Request"]["fields"]) if x["name"] == "uri")
-                ok = desc_contains(ad, lambda y: y[0] == "field" and y[2] == uri_idx)
+                # ... the whole request target, through reference conversions only (the route-stripped path is a relative reference that a
+                # client resolves against the wrong base below the first level)
+                odd_ = [c_[1] for c_ in core.desc_calls(ad) if not panics._STRIP_RX.search(c_[1])]
+                ok = desc_contains(ad, lambda y: y[0] == "field" and y[2] == uri_idx) and not odd_ and not desc_contains(ad, lambda y: y[0] == "multi")
             chk.ob("R4.directory", b.path, "Location = request.uri + '/'", ok, f"Location template {parts}", where=b.where(blk), cfg=cfg)
     chk.floor(f"directory redirect sites [{cfg}]", n, 2 if cfg == "A" else 1)
     consts = [p for p in prog.bodies if p.endswith("::INDEX_FILES") and prog.bodies[p].kind == "const"]
@@ -576,3 +579,7 @@ def run(chk):
             chk.floor("percent_decode fn", len(dec_), 1)
             if dec_:
                 c18.percent_decode(chk, prog, orc_, dec_[0], owner=False)
+            # with the cache on, what a route serves must still come from that route's directory: entries are keyed by the request path as
+            # it was matched (C16's key rule), not by a normalised form of it
+            from . import c16
+            c16.cache_key(chk, prog)
